@@ -371,31 +371,36 @@ def o5(h, st):
 # ---------------------------------------------------------------------------------------------------------------------
 # O6/O7 integer <-> stabilizer tables
 
-@contract("C16", "O7.pauli_product_table", level="S", structures=lambda tier: [{"a": a, "b": b} for a in range(4) for b in range(4)],
-          targets=[(MF, "MultiformOperator.__mul__")])
+@contract("C16", "O7.pauli_product_table", level="B", structures=lambda tier: [{"a": a, "b": b, "pos": pos} for a in range(4) for b in range(4) for pos in (0, 1)],
+          native_samples=lambda st, rnd, tier: [{}], targets=[(MF, "MultiformOperator.__mul__"), (MF, "MultiformOperator.from_integerop")])
 def o7(h, st):
-    """for the integer encoding I,Z,X,Y = 0,1,2,3: sigma_a sigma_b == phase(a,b) * sigma_{a xor b}; the phase table used by __mul__
-    (read from the source) agrees with the 2x2 matrices, for all 16 pairs"""
-    import ast
+    """for the integer encoding I,Z,X,Y = 0,1,2,3 (bounded exhaustive: all 16 pairs, either qubit of a 2-qubit register): the array-form product of the single Pauli letters
+    sigma_a and sigma_b is phase(a,b) * sigma_{a xor b} with the phase of the 2x2 matrix product - decided by executing the real __mul__ (wherever it keeps its phase table), not
+    by reading the table out of the source"""
     import numpy as np
-    from tverif.interp import Interp
-    idx = Interp().index("/".join([__import__("tverif.runner", fromlist=["REPO"]).REPO, MF]))
-    src = idx.text
-    tree = idx.qual["MultiformOperator.__mul__"]
-    table = None
-    for node in ast.walk(tree):
-        if isinstance(node, ast.Assign) and isinstance(node.targets[0], ast.Name) and node.targets[0].id in ("c_calc", "levi"):
-            table = eval(compile(ast.Expression(node.value), "<table>", "eval"), {"np": np})
-    if table is None:
-        for node in ast.walk(idx.tree):
-            if isinstance(node, ast.Assign) and any(isinstance(t, ast.Name) and t.id == "c_calc" for t in node.targets):
-                table = eval(compile(ast.Expression(node.value), "<table>", "eval"), {"np": np})
-    h.check("phase table found in the source", table is not None)
+    from tangelo.toolboxes.operators import MultiformOperator
     S = {0: np.eye(2), 1: np.array([[1, 0], [0, -1]]), 2: np.array([[0, 1], [1, 0]]), 3: np.array([[0, -1j], [1j, 0]])}
-    a, b = st["a"], st["b"]
-    prod = S[a] @ S[b]
-    ph = np.asarray(table)[a][b] if table is not None else None
-    h.check("sigma_a sigma_b == table[a][b] * sigma_(a xor b)", ph is not None and np.allclose(prod, ph * S[a ^ b]), detail=f"{a},{b}: table {ph}")
+    a, b, pos = st["a"], st["b"], st["pos"]
+
+    def one(letter, coef):
+        row = [0, 0]
+        row[pos] = letter
+        return MultiformOperator.from_integerop(np.array([row]), np.array([coef], dtype=complex))
+    ma, mb = one(a, 1.0), one(b, 1.0)
+    prod = h.call(MF, "MultiformOperator.__mul__", ma, mb)
+    M = S[a] @ S[b]
+    c = a ^ b
+    k = np.argmax(np.abs(S[c]))
+    phase = M.flat[k] / S[c].flat[k]
+    h.check("the matrices agree with the encoding: sigma_a sigma_b == phase * sigma_(a xor b)", np.allclose(M, phase * S[c]))
+    ints = np.asarray(prod.integer)
+    facs = np.asarray(prod.factors)
+    keep = [i for i in range(len(facs)) if abs(facs[i]) > 1e-12]
+    exp_row = [0, 0]
+    exp_row[pos] = c
+    h.check("one term, the letter a xor b on the same qubit", len(keep) == 1 and list(ints[keep[0]]) == exp_row, detail=f"{ints.tolist()} {facs.tolist()}")
+    if len(keep) == 1:
+        h.check("with the phase of the matrix product", abs(facs[keep[0]] - phase) < 1e-12, detail=f"{facs[keep[0]]} vs {phase}")
     h.done()
 
 
